@@ -460,7 +460,6 @@ func sfObjSize(info *types.Info, assigns map[types.Object][]ast.Expr, o types.Ob
 	return pos, neg, true
 }
 
-
 // sameFaceExact (after round-6 seed C10-r6m2, `(i - size) >= 0` simplified to `i > size`): in VertexNeighbors the
 // same-face flags are not only a licence to skip the wrap-around conversion - `if isame || jsame` also decides whether
 // the vertex has a fourth neighbour (only a cube vertex has three). A flag that is false for an in-face coordinate
